@@ -111,6 +111,35 @@ func (Segment).Remove
     // C11 (D10): ... and removed: a missing index file is not an error, the log file goes
     ensures[derive_noindex] !old(fsExists)[s.Index] && old(fsExists)[s.Log] && s.Index != s.Log ==> !is(err, fs.ErrNotExist) && (err == nil ==> !fsExists[s.Log])
 
+// ================================================================ backup (C20), over the ghost file system
+// the destination ends up with the source's content - or is left alone because it already exists with the same
+// size (and, not modelled, the same modification time: the skip rule of copyFile)
+pred copied(src string, dst string) := fsExists[dst] && (fsContent[dst] == old(fsContent)[src] || (old(fsExists)[dst] && fsContent[dst] == old(fsContent)[dst] && old(fsSize)[dst] == old(fsSize)[src]))
+
+func copyFile
+    flags noframe only_copy
+    requires[copy_ok] src != dst
+    assigns fPath, fsExists, fsContent, fsSize, fsDirty
+    ensures[copy_done]    err == nil ==> copied(src, dst)
+    // a file that was written is fsynced before copyFile reports success
+    ensures[copy_durable] err == nil && fsContent[dst] != old(fsContent)[dst] ==> !fsDirty[dst]
+    // the source and every other file are left as they are
+    ensures[copy_frame]   forall p string :: p != dst ==> fsContent[p] == old(fsContent)[p] && fsExists[p] == old(fsExists)[p] && fsSize[p] == old(fsSize)[p]
+    ensures[copy_missing] !old(fsExists)[src] ==> err != nil
+    assert[copy_h1] old(fsExists)[dst] at return 4
+    assert[copy_h2] fsContent[dst] == old(fsContent)[dst] && fsExists[dst] at return 4
+    assert[copy_h3] old(fsSize)[dst] == old(fsSize)[src] at return 4
+
+func (Segment).Backup
+    flags noframe only_copy
+    requires[copy_ok] (forall r string :: pathJoin(targetDir, r) != s.Log && pathJoin(targetDir, r) != s.Index) && s.Log != s.Index
+    assigns fPath, fsExists, fsContent, fsSize, fsDirty, dirDirty
+    // both files of the segment are copied under their own names into the target directory
+    ensures[copy_segment] err == nil ==> forall r string :: (pathJoin(s.Dir, r) == s.Log || pathJoin(s.Dir, r) == s.Index) ==> copied(pathJoin(s.Dir, r), pathJoin(targetDir, r))
+    ensures[copy_source]  fsContent[s.Log] == old(fsContent)[s.Log] && fsContent[s.Index] == old(fsContent)[s.Index] && fsExists[s.Log] == old(fsExists)[s.Log] && fsExists[s.Index] == old(fsExists)[s.Index]
+    ensures[copy_frame]   forall p string :: (forall r string :: (pathJoin(s.Dir, r) == s.Log || pathJoin(s.Dir, r) == s.Index) ==> p != pathJoin(targetDir, r))
+                              ==> fsContent[p] == old(fsContent)[p] && fsExists[p] == old(fsExists)[p] && fsSize[p] == old(fsSize)[p]
+
 // C13: one segment counts as one; its messages are the items of its index file; its size is log file plus index file
 func (Segment).Stat
     flags noframe only_stat
